@@ -46,6 +46,7 @@ type WW struct {
 	Strict   bool
 	NoFaults bool
 	LastOp   string
+	opLog    []opMark
 	// notUnspentSeen: wallet|Y of spendable proofs already reported as not UNSPENT at the mint
 	notUnspentSeen map[string]bool
 	Deficit        map[string]int64
@@ -642,7 +643,9 @@ func (ww *WW) CheckWallets(when string) {
 		v := n.View()
 		var sum uint64
 		var Ys = map[string][]string{}
+		secOf := map[string]string{}
 		for _, p := range v.Proofs {
+			secOf[hY(p.Secret)] = p.Secret
 			sum += p.Amount
 			if h, dup := seenAt[p.Secret]; dup {
 				W.Book.Violate("C17.counted_twice", when, "secret held twice: spendable in %s and %s in %s", w, h.where, h.wallet)
@@ -689,7 +692,9 @@ func (ww *WW) CheckWallets(when string) {
 						ww.notUnspentSeen = map[string]bool{}
 					}
 					ww.notUnspentSeen[w+"|"+y] = true
-					W.Book.Violate("C17.spendable_not_unspent", ww.LastOp+"|"+st[y], "after [%s] (%s) %s counts a proof as spendable that is %s at the mint", ww.LastOp, when, w, st[y])
+					// cause: the operation in which the mint signed this proof's output
+					origin := ww.signedDuring(w, secOf[y], "")
+					W.Book.Violate("C17.spendable_not_unspent", "signed-during:"+origin+"|"+st[y], "after [%s] (%s) %s counts a proof as spendable that is %s at the mint; its output was signed during [%s]", ww.LastOp, when, w, st[y], origin)
 				}
 			}
 		}
@@ -806,4 +811,44 @@ var _ = strings.ToLower
 func (ww *WW) op(kind string) {
 	ww.LastOp = kind
 	ww.rc.Op(kind)
+	ww.opLog = append(ww.opLog, opMark{ww.rc.S.EvSeq, kind})
+}
+
+type opMark struct {
+	Seq  int
+	Kind string
+}
+
+// opAt: the wallet-level operation during which event seq happened.
+func (ww *WW) opAt(seq int) string {
+	kind := "setup"
+	for _, m := range ww.opLog {
+		if m.Seq > seq {
+			break
+		}
+		kind = m.Kind
+	}
+	return kind
+}
+
+// signedDuring: for a deterministic output of wallet w (by secret or B_), the operation during
+// which the mint first signed it; "" if it is not a deterministic output of w or was never signed.
+func (ww *WW) signedDuring(w, secret, b string) string {
+	d := ww.Det[w]
+	if d == nil {
+		return ""
+	}
+	if b == "" {
+		e := d.bySec[secret]
+		if e == nil {
+			return ""
+		}
+		b = e.B_
+	}
+	for _, m := range ww.Mints {
+		if sg := ww.W.Book.Mint(m).Sigs[b]; sg != nil {
+			return ww.opAt(sg.Seq)
+		}
+	}
+	return ""
 }
